@@ -9,3 +9,4 @@ pub mod lfo;
 pub mod midi;
 pub mod quant;
 pub mod ribbon;
+pub mod ribbon_rates;
